@@ -95,6 +95,7 @@ def stream(ctx, drv):
         n, m, b = compare("tree:whole_span-matcher-programs", lines, hash(src))
         info = drv.call("c01.tree_span", tree=fe.export(tree))
         ctx.dist("tree: treeOk2 " + ("holds" if info["wf2"] else "FAILS"))
+        ctx.dist("tree: treeOk3 (hypothesis of C02_whole_span_exists / C02_meta_program_exactly_once) " + ("holds" if info["wf3"] else "FAILS"))
         ctx.dist("tree: lastDescMono (hypothesis of C02_node_span) " + ("holds" if info["monotone"] else "FAILS"))
         ctx.dist("tree: PreorderMonotone (former, stronger hypothesis) " + ("holds" if info["monotone_preorder"] else "FAILS"))
         has_pos_string = any(isinstance(x, ast.Constant) and isinstance(x.value, (str, bytes)) and "_pos=" in repr(x.value)
